@@ -64,3 +64,8 @@ TEXT['C17'] = dict(
    technique='Coq proof over a hand-written model of envEntry/dumpScriptConf (with Go\'s rune-wise regexp replacement) and of resolvconf.Run (scan, anchored classes, rendering): character-set theorem, file grammar (inductive grammar = boolean recogniser), render = functional specification, composition; differential correspondence against the library, a real child process and the real binary in a chroot; specification recognisers evaluated on every implementation output',
    level='Theorems in coq/Properties/C17.v hold for every key and every byte string of any length (any byte values, any UTF-8 damage): every byte of envEntry(k, v) after "PSA_DHCPC_k=" is a letter, digit, comma, dot, hyphen or underscore; dumpScriptConf yields exactly the seven variables with such values for every interface configuration; for every environment (any number of entries, duplicates, entries without "=") the buffer resolvconf.Run writes is header, at most one "search" line with one non-empty hostname-character token, then "nameserver" lines with one non-empty [0-9.] token each, at least one of them, and nothing is written exactly when the environment supplies no valid name-server token; the written file equals an independently stated function of the environment; the composition Ifconfig -> environment -> file has that shape for all contents. Tie to the code each run: the library functions on all byte values and UTF-8 boundary cases, 50 real child processes through Cbhandler, and the real psa-dhcpc -syshook binary in a chroot on 173 environment blocks (quick).',
    note='Trusted: Coq kernel, extraction, driver, harness, hand-written models, gofacts for the literals; Go regexp/utf8/os.Environ semantics as modelled. dclient.buildNetconfig is not executed (the theorems quantify over every Ifconfig content); update() (atomic replace) is C20.')
+
+TEXT['C09'] = dict(
+   technique='Coq proof (partial): atomic database steps read from the source, store = sequential table on every history, verdicts depend on own steps only, exchanges not derailed under any interleaving; no-alias run, real-time bursts, concurrent API calls, race detector',
+   level='PARTIAL. Proved (coq/Properties/C09.v): database operations are atomic (fact extracted from the source each run) and behave as the sequential reference table on every history; a REQUEST verdict depends only on the sender\'s own message, binding and probe; once an address is held for a client its exchange completes whatever operations other handlers perform in between (all interleavings); a DISCOVER is one database operation. Evidenced by runs only: absence of data races (race detector), that option payloads do not alias the receive buffer, that simultaneous DISCOVER/REQUEST bursts through the real Run loop each get exactly one distinct OFFER/ACK. The Go memory model itself is outside the model.',
+   note=_SRV_NOTE)
